@@ -377,6 +377,24 @@ def check_C13(ctx):
             if len(r["bytes"]) == 300 and sum(1 for l in labs if l == "300_bytes+huge_suffix") < ctx.scale(2, 8):
                 for n in (65236, 65536, 70000):
                     cases.append(["decode " + hx(r["bytes"]), "decode " + hx(r["bytes"] + (recs[0]["bytes"] * (n // len(recs[0]["bytes"]) + 1))[:n])]); labs.append("300_bytes+huge_suffix")
+        # two records whose keys are d and n-d (same x coordinate, other parity), back to back in both orders, as a
+        # stream and as a list: state carried from one decode to the next must not matter
+        if kt in ("k256", "libsecp", "comb"):
+            import enrlib as _el
+            for _ in range(ctx.scale(2, 12)):
+                sd = gens.rbytes(rng, 32)
+                ns = gens.neg_secret(sd)
+                if ns is None:
+                    continue
+                k1 = _el.Key(ctx.oracle, kt, sd, "secp" if kt == "comb" else None)
+                k2 = _el.Key(ctx.oracle, kt, ns, "secp" if kt == "comb" else None)
+                if k1.pub is None or k2.pub is None:
+                    continue
+                r1 = record_bytes(ctx.oracle, k1, 1, sorted({b"id": rlp_str(b"v4"), k1.entry: rlp_str(k1.pub)}.items()))[0]
+                r2 = record_bytes(ctx.oracle, k2, 1, sorted({b"id": rlp_str(b"v4"), k2.entry: rlp_str(k2.pub), b"udp": rlp_uint(9)}.items()))[0]
+                for x, y in ((r1, r2), (r2, r1)):
+                    cases.append(["decode " + hx(x), "decode " + hx(x + y), "decode " + hx(y), "decode " + hx(x), "decvec " + hx(rlp_list(x + y)), "decvec " + hx(rlp_list(y + x + y))])
+                    labs.append("negated_key_pair_back_to_back")
         # streams and lists of 1..8 records
         for _ in range(ctx.scale(12, 150)):
             k = rng.randrange(1, 9)
@@ -903,6 +921,17 @@ def check_history_property(ctx):
         if pid == "C08":
             # error kinds at the size limit: ExceedsMaxSize exactly when the result would not fit
             cases += size_neutral_cases(ctx, gk)[:ctx.scale(30, 300)]
+            # remove_insert with repeated keys: the same key twice among the inserts (absent / present before), a key both
+            # removed and inserted, a key removed twice — the returned previous values are those of a sequential map
+            a8 = gens.secrets(ctx.rng, ctx.oracle, gk, 1)[0]
+            kx, ky = hx(b"x"), hx(b"tcp")
+            for start in ("build a 0 1", "build a 0 1 val/%s/b:%s tcp4/80" % (kx, hx(b"old"))):
+                cases.append(["key a " + a8.spec, start,
+                              "op remove_insert a 0 none %s:%s,%s:%s" % (kx, hx(b"v1"), kx, hx(b"v2")),
+                              "op remove_insert a 0 %s %s:%s" % (kx, kx, hx(b"v3")),
+                              "op remove_insert a 0 %s,%s none" % (kx, kx),
+                              "op remove_insert a 0 none %s:%s,%s:%s,%s:%s" % (kx, hx(b"p"), ky, hx(b"\x50"), kx, hx(b"q")),
+                              "op remove_insert a 0 %s,%s %s:%s,%s:%s" % (ky, kx, ky, hx(b"\x51"), ky, hx(b"\x52"))])
         if pid in ("C05", "C09"):
             recs_d, inputs_d, labels_d = decode_inputs(ctx, gk, ctx.scale(4, 40), 0, ctx.scale(3, 30), ctx.scale(5, 100), 0)
             cases += [["decode " + hx(b)] for b in inputs_d]
